@@ -62,6 +62,23 @@ def check_text(job):
     """the textual description denotes exactly the operation it spells"""
     from cpppo.server.enip import client
     cfg, j = job
+    if j["r"]["svc"] in ("gas", "sas"):
+        from cpppo.server.enip.get_attribute import attribute_operations
+        want = expected_op(cfg, dict(j["r"], svc="write" if j["r"]["svc"] == "sas" else "read", n=len(j["r"]["vals"])))
+        want["method"] = "set_attribute_single" if j["r"]["svc"] == "sas" else "get_attribute_single"
+        want.pop("elements", None)
+        try:
+            got = list(attribute_operations([j["text"]]))[0]
+        except Exception as exc:
+            return ["attribute_operations(%r) raised %r" % (j["text"], exc)]
+        out = []
+        for k, v in want.items():
+            g = got.get(k)
+            if k == "path":
+                g = [dict(s) for s in g]
+            if g != v:
+                out.append("attribute_operations(%r): %s = %r, spells %r" % (j["text"], k, g, v))
+        return out
     want = expected_op(cfg, j["r"])
     out = []
     for frag in (False, True):
@@ -107,11 +124,13 @@ def make_connector(host, port, timeout, sends):
 def observe(cfg, r, sts, val):
     st, ext = (sts, []) if isinstance(sts, int) else (sts[0], list(sts[1]))
     if val is True:
-        return {"st": st, "ext": ext, "vals": [], "ok": True}
+        return {"st": st, "ext": ext, "vals": [], "ok": True, "bytes": []}
     if val is None or val is False:
-        return {"st": st, "ext": ext, "vals": [], "ok": False}
+        return {"st": st, "ext": ext, "vals": [], "ok": False, "bytes": []}
+    if r["svc"] == "gas":
+        return {"st": st, "ext": ext, "vals": [], "ok": True, "bytes": [int(v) for v in val]}      # the attribute's octets
     t = tagtype(cfg, r)
-    return {"st": st, "ext": ext, "vals": [sim.enc_elem(t, v) for v in val], "ok": True}
+    return {"st": st, "ext": ext, "vals": [sim.enc_elem(t, v) for v in val], "ok": True, "bytes": []}
 
 
 def run_client(job):
@@ -125,7 +144,13 @@ def run_client(job):
     srv.dev.set_mem(mem0)
     texts = [o["text"] for o in ops]
     try:
-        operations = list(client.parse_operations(texts, fragment=fragment))
+        operations = []
+        for o in ops:                  # attribute services are spelled the same way and parsed by get_attribute.attribute_operations
+            if o["r"]["svc"] in ("gas", "sas"):
+                from cpppo.server.enip.get_attribute import attribute_operations
+                operations += list(attribute_operations([o["text"]]))
+            else:
+                operations += list(client.parse_operations([o["text"]], fragment=fragment))
     except Exception as exc:           # an operation text of the catalogue must parse: reported as a run without results
         return {"cfg": cfg, "mem0": mem0, "ops": [o["r"] for o in ops], "frag": bool(fragment), "obs": [], "fault": bool(fault),
                 "delivered": len(ops), "raised": True, "mixed": False, "final": [], "setting": [depth, multiple, fragment],
